@@ -241,9 +241,29 @@ class CFG:
             if st.orelse:
                 after = self._block(st.orelse, after)
             return after + brk
+        if isinstance(st, ast.Try) and st.finalbody:
+            # try/finally: the protected part is built as an inner try (without the finally clause); the finally body
+            # runs after it on the normal path, and a second copy runs on the exceptional path before propagating
+            inner = ast.Try(body=st.body, handlers=st.handlers, orelse=st.orelse, finalbody=[])
+            ast.copy_location(inner, st)
+            outer_ctx = _TryCtx(st)
+            self._tries.append(outer_ctx)
+            if st.handlers:
+                normal = self._stmt(inner, frontier)
+            else:
+                normal = self._block(st.body, frontier)
+            self._tries.pop()
+            out = self._block(st.finalbody, normal)
+            pending_exc: Dangling = list(outer_ctx.exc) + [(rn, 'exc') for (rn, _c) in outer_ctx.raises]
+            if pending_exc:
+                fin_out = self._block(st.finalbody, pending_exc)
+                # after the cleanup the exception continues outward
+                if self._tries:
+                    self._tries[-1].exc.extend(fin_out)
+                else:
+                    self._connect(fin_out, self.raise_exit)
+            return out
         if isinstance(st, ast.Try):
-            if st.finalbody:
-                raise AnalysisError(f"{self.func.loc(st)}: try/finally is not modelled by the CFG builder")
             tc = _TryCtx(st)
             self._tries.append(tc)
             body_out = self._block(st.body, frontier)
